@@ -49,6 +49,11 @@ def instances(tier, seed):
     for order in ((2,) if tier == "quick" else (2, 4)):
         out.append(dict(op="adaptive_taylor", order=order, max_trials=3, label="adaptive Taylor P&C order %d: every trial (<= 3 per call) applies the polynomial of ITS step to the state it started from" % order,
                         key="adaptive/taylor", run_opts=dict(max_paths=6000, budget_s=120.0)))
+    # variable-mean-field scheme: the right-hand side handed to the ODE solver against the gauge-fixed TDVP equations (matrix form, dense blocks)
+    for force in (False, True):
+        for kind in (("real",) if tier == "quick" else ("real", "cplx")):
+            out.append(dict(op="vmf", force=force, kind=kind, n=3, run_opts=dict(max_paths=400, budget_s=300.0), limit_s=900,
+                            label="tdvp_vmf right-hand side n=3 bond 2 force_ovlp=%s %s state" % (force, kind), key="vmf/%s" % ("force_ovlp" if force else "canonical")))
     out.append(dict(op="dispatch", label="Mps.evolve dispatch table and normalisation switch", key="dispatch"))
     # the real projector-splitting sweeps of the chain with the local Krylov propagator replaced by a contract stub
     chains = [(("e", "e"), (1, 2, 1)), (("e", "e", "e"), (1, 2, 2, 1))]
@@ -297,6 +302,8 @@ def make_harness(P):
             return h_adaptive(ctx, P)
         if op == "adaptive_taylor":
             return h_adaptive_taylor(ctx, P)
+        if op == "vmf":
+            return h_vmf(ctx, P)
         if op == "dispatch":
             return h_dispatch(ctx)
         if op == "tdvp_sweep":
@@ -539,6 +546,178 @@ def h_adaptive_taylor(ctx, P):
         return
     last = levels[-1]
     ctx.check("adaptive Taylor: the returned state is the last trial's result", res is last["trials"][-1]["result"])
+
+
+def h_vmf(ctx, P):
+    """EvolveMethod.tdvp_vmf: `solve_ivp` is replaced by a stub that evaluates the right-hand side once at the initial point; eigh by contract (w, u).
+    Reference (derived independently in matrix form and validated numerically against the tangent-space projection of -i H psi): with L_i / R_i the dense
+    left / right blocks of the state the derivative of site i is
+        (1/coef) * S_L^-1 (1 - P_i) F_i (R_i R_i^h)^-1,   F_i = (L_i x 1)^h (H psi) R_i^h,   P_i = (S_L x 1) A_i S_L'^-1 A_i^h   (S_L = L_i^h L_i; = 1 in the left-canonical gauge)
+    and (1/coef) S_L^-1 F_n for the last site; inverses = u diag(1/w') u^h from the decomposition the code itself requested (w' = clamp + regularisation)."""
+    from renormalizer.mps import mps as mpsmod
+    from renormalizer.utils import EvolveConfig, EvolveMethod, CompressConfig, CompressCriteria
+    from symnum import stubs
+    n = P["n"]
+    force = P["force"]
+    cplx = P["kind"] == "cplx"
+    model = lib.make_model(tuple(["s"] * n))
+    psi = sym_state(ctx, model, n, 2, kind=P["kind"])
+    psi.compress_config = CompressConfig(CompressCriteria.fixed, max_bonddim=16)
+    if force:
+        psi.to_right = False
+        psi.qnidx = n - 1
+    H = sym_op(ctx, model, n, P.get("obond", 1), "o")
+    Hd = lib.dense_op(lib.tensors(H))
+    psi.evolve_config = EvolveConfig(EvolveMethod.tdvp_vmf, force_ovlp=force)
+    psi.evolve_config.vmf_auto_switch = False
+    eps = psi.evolve_config.reg_epsilon
+    rec = {}
+    eigs = []
+
+    class _Done(Exception):
+        pass
+
+    def fake_ivp(fun, t_span, y0, **kw):
+        rec["y0"] = np.array(y0, dtype=object if ctx.symbolic else complex)
+        rec["f"] = np.array(fun(0, y0), dtype=object if ctx.symbolic else complex)
+        raise _Done()
+    real_env = mpsmod.Environ
+
+    def env_wrapper(mps_, mpo_, *a, **k):
+        rec["ts"] = [np.array(np.asarray(x.array)) for x in mps_]
+        return real_env(mps_, mpo_, *a, **k)
+    real_ivp = mpsmod.solve_ivp
+    mpsmod.solve_ivp, mpsmod.Environ = fake_ivp, env_wrapper
+    undo = None
+    saved_scipy = mpsmod.__dict__.get("scipy")
+    if ctx.symbolic:
+        contract, undo = stubs.lapack_contract(ctx, modules=("renormalizer.mps.svd_qn", "renormalizer.mps.mps"), cplx=cplx)
+        inner_eigh = mpsmod.scipy.linalg.eigh
+    else:
+        import scipy.linalg as _sl
+        inner_eigh = _sl.eigh
+
+    class _LA:
+        def __getattr__(self, item):
+            return getattr(cur_scipy.linalg, item)
+
+        @staticmethod
+        def eigh(a, *aa, **k):
+            w, u = inner_eigh(a, *aa, **k)
+            eigs.append((np.array(np.asarray(a)), w, u))
+            return w, u
+
+    class _SP:
+        linalg = _LA()
+
+        def __getattr__(self, item):
+            return getattr(cur_scipy, item)
+    cur_scipy = mpsmod.scipy
+    mpsmod.scipy = _SP()
+    try:
+        try:
+            # the left-canonical gauge the scheme establishes first is not re-derived here (C04): canonicalise is the identity, so the equations are compared as
+            # polynomial identities on an arbitrary state (the reference uses the same left-gauge form 1 - A A^h of the projector)
+            with IdentityCompression():
+                psi.evolve(H, 0.1, normalize=False)
+        except _Done:
+            pass
+    finally:
+        mpsmod.solve_ivp, mpsmod.Environ = real_ivp, real_env
+        mpsmod.scipy = cur_scipy
+        if undo:
+            undo()
+        if saved_scipy is not None:
+            mpsmod.scipy = saved_scipy
+    if "f" not in rec:
+        ctx.check("vmf: the ODE solver is called", False)
+        return
+    ts = rec["ts"]
+    npx = mpsmod.np          # the module's own numpy name (proxy in symbolic mode): exp of a solver variable is the same uninterpreted atom on both sides
+    odt = object if ctx.symbolic else complex
+
+    def H_(m):
+        return np.conj(np.asarray(m)).T
+
+    def regularised(w):
+        out = []
+        for x in np.asarray(w):
+            pos = bool(x > 0)
+            x = x if pos else 0
+            out.append(x + eps * npx.exp(-x / eps))
+        return out
+
+    def inv_from(M, reg, what):
+        """inverse of the Hermitian matrix M through the decomposition the code requested for it (found by its argument, either index convention)"""
+        M = np.asarray(M)
+        if M.shape == (1, 1) and not ctx.symbolic or (M.shape == (1, 1) and not hasattr(M[0, 0], "re")):
+            pass
+        for a, w, u in eigs:
+            if a.shape != M.shape:
+                continue
+            same = ctx.eq(a, M)
+            if (bool(same) if not ctx.symbolic else getattr(same, "op", "") == "true" or same is True):
+                ww = regularised(w) if reg else list(np.asarray(w))
+                return sum((np.outer(np.asarray(u)[:, k], np.conj(np.asarray(u)[:, k])) * (1 / ww[k]) for k in range(len(ww))), np.zeros(M.shape, dtype=odt))
+            sameT = ctx.eq(a, M.T)
+            if (bool(sameT) if not ctx.symbolic else getattr(sameT, "op", "") == "true" or sameT is True):
+                ww = regularised(w) if reg else list(np.asarray(w))
+                r = sum((np.outer(np.asarray(u)[:, k], np.conj(np.asarray(u)[:, k])) * (1 / ww[k]) for k in range(len(ww))), np.zeros(M.shape, dtype=odt))
+                return r.T
+        missing.append(what)
+        return None
+    missing = []
+    psi_d = lib.dense_vec(ts)
+    Hpsi = Hd.dot(psi_d)
+    coef = 1j
+    refs = []
+    for i in range(n):
+        Lb = np.ones((1, 1), dtype=odt)
+        for t in ts[:i]:
+            Lb = np.tensordot(Lb, t, axes=([-1], [0])).reshape(-1, t.shape[-1])
+        Rb = np.ones((1, 1), dtype=odt)
+        for t in ts[:i:-1]:
+            Rb = np.tensordot(t, Rb, axes=([-1], [0])).reshape(t.shape[0], -1)
+        l, d, r = ts[i].shape
+        A = ts[i].reshape(l * d, r)
+        G = np.kron(Lb, np.eye(d, dtype=int))
+        F = H_(G).dot(Hpsi.reshape(G.shape[0], -1)).dot(H_(Rb))
+        SL = H_(Lb).dot(Lb)
+        SLk = np.kron(SL, np.eye(d, dtype=int))
+        SL1 = H_(A).dot(SLk).dot(A)
+        SR = Rb.dot(H_(Rb))
+        if i == n - 1:
+            if force:
+                iSL = inv_from(SL, False, "S_L[%d]" % i)
+                if iSL is None:
+                    continue
+                f = np.kron(iSL, np.eye(d, dtype=int)).dot(F)
+            else:
+                f = F
+        else:
+            iSR = inv_from(SR, True, "S_R[%d]" % (i + 1))
+            if iSR is None:
+                continue
+            if force:
+                iSL = inv_from(SL, False, "S_L[%d]" % i)
+                iSL1 = inv_from(SL1, False, "S_L[%d]" % (i + 1))
+                if iSL is None or iSL1 is None:
+                    continue
+                Pm = SLk.dot(A).dot(iSL1).dot(H_(A))
+                f = np.kron(iSL, np.eye(d, dtype=int)).dot((np.eye(l * d, dtype=int) - Pm).dot(F)).dot(iSR)
+            else:
+                Pm = A.dot(H_(A))
+                f = (np.eye(l * d, dtype=int) - Pm).dot(F).dot(iSR)
+        refs.append((i, (f * (1 / coef)).ravel()))
+    ctx.check("vmf: every overlap matrix the equations need was decomposed by the code (argument = overlap of the dense left / right block, either index convention)", not missing, info=str(missing))
+    pos = 0
+    conds = []
+    sizes = [int(np.prod(t.shape)) for t in ts]
+    offs = [sum(sizes[:i]) for i in range(n)]
+    for i, f in refs:
+        conds.append(ctx.eq(rec["f"][offs[i]:offs[i] + sizes[i]], f))
+    ctx.check("vmf: the initial vector handed to the ODE solver is the state's tensors", ctx.eq(rec["y0"], np.concatenate([t.ravel() for t in ts])))
+    ctx.check("vmf: right-hand side = (1/i) S_L^-1 (1 - P_i) F_i S_R^-1 for every site (gauge-fixed TDVP equations; regularised right overlap)", ctx.all(conds))
 
 
 class _TrialBound(Exception):
